@@ -85,11 +85,11 @@ func (r *Report) add(st Status, construct, pos, detail string) {
 	r.Obls = append(r.Obls, Obligation{Rule: r.curRule.Name, Construct: construct, Pos: pos, Status: st, Detail: detail, Config: r.Config})
 }
 
-func (r *Report) OK(construct, pos, detail string)   { r.add(Discharged, construct, pos, detail) }
-func (r *Report) Bad(construct, pos, detail string)  { r.add(Violated, construct, pos, detail) }
-func (r *Report) Unk(construct, pos, detail string)  { r.add(Undecided, construct, pos, detail) }
-func (r *Report) Note(f string, a ...interface{})    { r.Notes = append(r.Notes, fmt.Sprintf(f, a...)) }
-func (r *Report) Func(name string)                   { r.Funcs[name] = true }
+func (r *Report) OK(construct, pos, detail string)  { r.add(Discharged, construct, pos, detail) }
+func (r *Report) Bad(construct, pos, detail string) { r.add(Violated, construct, pos, detail) }
+func (r *Report) Unk(construct, pos, detail string) { r.add(Undecided, construct, pos, detail) }
+func (r *Report) Note(f string, a ...interface{})   { r.Notes = append(r.Notes, fmt.Sprintf(f, a...)) }
+func (r *Report) Func(name string)                  { r.Funcs[name] = true }
 func (r *Report) Check(ok bool, construct, pos, good, bad string) {
 	if ok {
 		r.OK(construct, pos, good)
@@ -276,26 +276,26 @@ func finish(prop, tier string, seed int, reps []*Report, verifDir string, wall f
 	sort.Strings(fl)
 	r0 := reps[0]
 	cov := map[string]interface{}{
-		"explanation":        r0.Explanation,
-		"not_covered":        r0.NotCovered,
-		"obligations":        len(all),
-		"discharged":         discharged,
+		"explanation":           r0.Explanation,
+		"not_covered":           r0.NotCovered,
+		"obligations":           len(all),
+		"discharged":            discharged,
 		"undecided_or_violated": len(viol) + len(known),
-		"checker_cmd":        fmt.Sprintf("bin/check %s %s", prop, tier),
-		"trusted_base":       r0.Trusted,
-		"build_configs":      cfgs,
-		"rules":              rules,
-		"functions_analysed": len(fl),
-		"functions":          fl,
-		"call_sites":         callSites,
-		"positive_controls":  controls,
-		"samples":            samples,
-		"notes":              notes,
-		"known_findings_fixed": kf.Fixed,
-		"evaluations":        len(all),
-		"distinct_nontrivial": distinctKeys(all),
-		"rule":               "one evaluation = one obligation (rule instance on one construct of the current source, per build configuration); distinct = distinct rule+construct keys; every obligation is non-trivial in that it names a construct found in the analysed source",
-		"exhaustive":         true,
+		"checker_cmd":           fmt.Sprintf("bin/check %s %s", prop, tier),
+		"trusted_base":          r0.Trusted,
+		"build_configs":         cfgs,
+		"rules":                 rules,
+		"functions_analysed":    len(fl),
+		"functions":             fl,
+		"call_sites":            callSites,
+		"positive_controls":     controls,
+		"samples":               samples,
+		"notes":                 notes,
+		"known_findings_fixed":  kf.Fixed,
+		"evaluations":           len(all),
+		"distinct_nontrivial":   distinctKeys(all),
+		"rule":                  "one evaluation = one obligation (rule instance on one construct of the current source, per build configuration); distinct = distinct rule+construct keys; every obligation is non-trivial in that it names a construct found in the analysed source",
+		"exhaustive":            true,
 	}
 	for k, v := range extra {
 		cov[k] = v
